@@ -1,5 +1,5 @@
 #!/bin/bash
-# like run_refactors.sh but on scratch copies of /repo (never touches /repo; patches run J at a time)
+# every refactor patch (or the given ones) applied to its own scratch copy of /repo, all checks run on the copy; J patches at a time
 # usage: run_refactors_copy.sh [-j N] [patch.diff ...]
 cd /verif; export FPV_EXTRACT_SLOTS=${FPV_EXTRACT_SLOTS:-8}
 J=6; if [ "$1" = "-j" ]; then J=$2; shift 2; fi
